@@ -109,7 +109,7 @@ struct C03 : public Driver {
             else if (r < 17) { o["op"] = "param-expr"; std::string e = pickExpr(gf, d.names, dc.deep || dc.manyNames); SrcFault f = SrcFault::fromJson(srcFaultAt(gf, e, destructive)); o["expr"] = applySrcFault(e, f); o["faulted"] = f.destructive();
                 // a parameter value that makes a lazily evaluated global variable abort the transformation part-way
                 if (gated && gf.chance(2, 3)) { unsigned q = (unsigned)gf.below(3); o["expr"] = q == 0 ? std::string("'abort'") : q == 1 ? std::string("'badkey'") : "'" + d.ids[gf.below(std::min<size_t>(d.ids.size(), 14))] + "'"; o["faulted"] = true; } }
-            else if (r < 19) { o["op"] = gf.chance(1, 2) ? "xpath-eval" : "xpath-capi"; std::string e = pickExpr(gf, d.names, dc.deep || dc.manyNames); SrcFault f = SrcFault::fromJson(srcFaultAt(gf, e, destructive)); o["expr"] = applySrcFault(e, f); o["faulted"] = f.destructive(); o["docFault"] = srcFaultAt(gf, d.xml, destructive && gf.chance(1, 3)); { Rng gx = gf.fork("xlia"); o["xercesLiaison"] = gx.chance(1, 3); o["destroyDoc"] = gx.chance(1, 2); } }
+            else if (r < 19) { o["op"] = gf.chance(1, 2) ? "xpath-eval" : "xpath-capi"; std::string e = pickExpr(gf, d.names, dc.deep || dc.manyNames); SrcFault f = SrcFault::fromJson(srcFaultAt(gf, e, destructive)); o["expr"] = applySrcFault(e, f); o["faulted"] = f.destructive(); o["docFault"] = srcFaultAt(gf, d.xml, destructive && gf.chance(1, 3)); { Rng gx = gf.fork("xlia"); o["xercesLiaison"] = gx.chance(1, 3); o["destroyDoc"] = gx.chance(1, 2); o["destroyByDom"] = gx.chance(1, 2); } }
             else { o["op"] = "capi-transform"; o["docFault"] = srcFaultAt(gf, d.xml, destructive && gf.chance(1, 2)); o["xslFault"] = srcFaultAt(gf, s.xsl, destructive && gf.chance(1, 2)); o["toHandler"] = gf.chance(1, 2);
                 if (gated && gf.chance(1, 2)) { o["abortParam"] = gf.chance(1, 2) ? "'abort'" : "'badkey'"; o["faulted"] = true; } }      // the transformation itself fails part-way, after some output
             ops.push(o);
@@ -199,6 +199,9 @@ struct C03 : public Driver {
             } else if (k == "xpath-eval") {
                 SrcFault f = SrcFault::fromJson(o.at("docFault")); std::string seen = applySrcFault(plan.str("doc"), f);
                 QuietErrorHandler eh;
+                // by its wrapper, or (Xerces liaison, every other time) by the Xerces document it wraps
+                struct GiveBack { bool byDom; void operator()(XalanSourceTreeParserLiaison& l, XalanDocument* d) const { l.destroyDocument(d); }
+                    void operator()(XercesParserLiaison& l, XalanDocument* d) const { const xercesc::DOMDocument* x = byDom ? l.mapToXercesDocument(d) : nullptr; if (x) l.destroyDocument(const_cast<xercesc::DOMDocument*>(x)); else l.destroyDocument(d); } } giveBack{ o.boolean("destroyByDom") };
                 auto body = [&](auto& lia, auto& sup) {
                 lia.setErrorHandler(&eh);
                 SimInputSource src(seen, f, std::string(SIM_BASE) + "doc.xml", &env.fs.stats);
@@ -221,7 +224,7 @@ struct C03 : public Driver {
                     NodeRefList nl(mm); ev.selectNodeList(nl, sup, ctx, xs("//*", mm).c_str(), d->getDocumentElement()); r.out += "|" + std::to_string(nl.getLength());
                     ev.destroyXPath(kept);
                 }
-                if (d && o.boolean("destroyDoc")) lia.destroyDocument(d);      /* the caller gives the document back before the liaison goes away */
+                if (d && o.boolean("destroyDoc")) giveBack(lia, d);      /* the caller gives the document back before the liaison goes away */
                 };
                 // the evaluator over the native source tree, or over a Xerces DOM the Xerces liaison parsed and wraps itself
                 if (o.boolean("xercesLiaison")) { XercesParserLiaison lia(mm); XercesDOMSupport sup(lia); body(lia, sup); if (count) res.count("probe:xpath-over-xerces-liaison"); }
